@@ -44,6 +44,10 @@ pub struct Scenario {
     /// an injected status byte 0 is returned as the CTAP1 "success" status value (a store error all the same)
     #[serde(default)]
     pub zero_as_ctap1: bool,
+    /// the store's lookups lag behind its writes (they see what was held when the ceremony began) and answer
+    /// "nothing found" with Ok(empty list)
+    #[serde(default)]
+    pub lagging: bool,
 }
 
 #[derive(Clone, Debug, Serialize, Deserialize, PartialEq, Eq, Hash)]
@@ -75,6 +79,10 @@ pub fn execute(run: &Run) -> Result<Observed, String> {
     store.set_faults(run.faults.clone());
     store.set_yields(sc.store_yields);
     store.set_zero_as_ctap1_success(sc.zero_as_ctap1);
+    if sc.lagging {
+        store.set_lagging(true);
+        store.set_empty_ok(true);
+    }
     let uv = ScriptedUv::new(sc.script.clone());
     let cfg = AuthCfg { counter: sc.counter_cfg, hmac: sc.hmac, ..Default::default() };
     let mut auth = Some(cer::build_authenticator(store.clone(), uv, &cfg));
@@ -298,6 +306,7 @@ fn scenario() -> impl Strategy<Value = Scenario> {
             cred_has_hmac,
             store_yields,
             zero_as_ctap1: (store_yields + uv_yields) % 2 == 1,
+            lagging: (store_yields + uv_yields * 3 + list as usize + prf as usize) % 4 == 0,
         })
 }
 
@@ -349,6 +358,10 @@ pub enum SOp {
         /// shared map only: another party removes the selected credential from the store while the user is being asked
         #[serde(default)]
         removed_during_prompt: bool,
+        /// shared map only: another party uses the selected credential this many times (its stored counter advances by
+        /// that much) while the user is being asked
+        #[serde(default)]
+        advanced_during_prompt: u8,
     },
 }
 
@@ -367,7 +380,8 @@ fn same_but_counter(a: &PkSnap, b: &PkSnap) -> bool {
     *a == b2
 }
 
-type Remover = std::sync::Arc<dyn Fn(&[u8]) + Send + Sync>;
+/// (credential id, 0 = remove the record / k = advance its counter by k)
+type Remover = std::sync::Arc<dyn Fn(&[u8], u32) + Send + Sync>;
 
 fn run_shipped<S: crate::ceremony::StoreAccess>(ctx: &mut Ctx, store: S, single_slot: bool, c: &Shipped, remover: Option<Remover>) -> Result<(), String> {
     let uv = ScriptedUv::new(UvScript::verified());
@@ -448,26 +462,27 @@ fn run_shipped<S: crate::ceremony::StoreAccess>(ctx: &mut Ctx, store: S, single_
                     }
                 }
             }
-            SOp::Assert { target, prf, deny, removed_during_prompt } => {
+            SOp::Assert { target, prf, deny, removed_during_prompt, advanced_during_prompt } => {
                 uv.set(if *deny { UvScript { outcome: Err(0x27), ..UvScript::verified() } } else { UvScript::verified() });
                 let mine: Vec<&PkSnap> = before.iter().filter(|p| p.rp_id == RP).collect();
                 let allow = (!mine.is_empty()).then(|| vec![cer::descriptor(&mine[*target as usize % mine.len()].id)]);
-                if let (true, Some(rm), Some(sel)) = (*removed_during_prompt, &remover, mine.get(*target as usize % mine.len().max(1))) {
+                if let (true, Some(rm), Some(sel)) = (*removed_during_prompt || *advanced_during_prompt > 0, &remover, mine.get(*target as usize % mine.len().max(1))) {
                     // the credential disappears while the user is asked: the assertion may fail, or succeed and thereby
                     // write the record back; it may not succeed with a counter the store does not hold afterwards
                     let (rm, id) = (rm.clone(), sel.id.clone());
                     let id2 = id.clone();
-                    uv.on_next_check(move || rm(&id2));
+                    let how = if *removed_during_prompt { 0 } else { *advanced_during_prompt as u32 % 5 };
+                    uv.on_next_check(move || rm(&id2, how));
                     let ext = prf.then(|| get_assertion::ExtensionInputs { hmac_secret: None, prf: Some(AuthenticatorPrfInputs { eval: Some(AuthenticatorPrfValues { first: [3u8; 32], second: None }), eval_by_credential: None }) });
                     let req = get_assertion::Request { rp_id: RP.into(), client_data_hash: vec![6u8; 32].into(), allow_list: allow, extensions: ext, options: get_assertion::Options { rk: false, up: true, uv: true }, pin_auth: None, pin_protocol: None };
                     let res = crate::rt::block_on(auth.get_assertion(req));
                     let after = sorted(auth.store().snapshot());
-                    ctx.class(&format!("shipped/assert-while-the-credential-is-removed/{}", if res.is_ok() { "ok" } else { "err" }));
+                    ctx.class(&format!("shipped/assert-while-the-credential-is-{}/{}", if how == 0 { "removed".to_string() } else { format!("used {how}x elsewhere") }, if res.is_ok() { "ok" } else { "err" }));
                     if let (Ok(r), Some(_)) = (&res, sel.counter) {
                         let reported = u32::from_be_bytes(r.auth_data.to_vec()[33..37].try_into().unwrap());
                         let held = after.iter().find(|p| p.id == id).and_then(|p| p.counter);
                         if held != Some(reported) {
-                            return Err(format!("op #{i}: an assertion was returned with counter {reported} but the store holds {held:?} for that credential (it was removed while the user was asked)"));
+                            return Err(format!("op #{i}: an assertion was returned with counter {reported} but the store holds {held:?} for that credential (it was {} while the user was asked)", if how == 0 { "removed".to_string() } else { format!("used {how} times by another party") }));
                         }
                     }
                     if after.iter().any(|a| a.id != id && !before.contains(a)) || before.iter().any(|b| b.id != id && !after.contains(b)) {
@@ -511,8 +526,13 @@ pub fn check_shipped(ctx: &mut Ctx, c: &Shipped) -> Result<(), String> {
         _ => {
             let shared = std::sync::Arc::new(tokio::sync::Mutex::new(passkey_authenticator::MemoryStore::new()));
             let s2 = shared.clone();
-            let remover: Remover = std::sync::Arc::new(move |id: &[u8]| {
-                s2.try_lock().expect("the store is not locked while the user is asked").remove(id);
+            let remover: Remover = std::sync::Arc::new(move |id: &[u8], how: u32| {
+                let mut g = s2.try_lock().expect("the store is not locked while the user is asked");
+                if how == 0 {
+                    g.remove(id);
+                } else if let Some(p) = g.get_mut(id) {
+                    p.counter = p.counter.map(|c| c.saturating_add(how));
+                }
             });
             run_shipped(ctx, shared, false, c, Some(remover))
         }
@@ -523,7 +543,7 @@ fn shipped() -> impl Strategy<Value = Shipped> {
     let op = prop_oneof![
         3 => (any::<u8>(), any::<u8>()).prop_map(|(handle, app)| SOp::U2fRegister { handle, app }),
         3 => (proptest::bool::weighted(0.3), proptest::bool::weighted(0.8), proptest::bool::weighted(0.15), any::<bool>()).prop_map(|(exclude_hit, alg_supported, deny, rk)| SOp::Create { exclude_hit, alg_supported, deny, rk }),
-        4 => (any::<u8>(), proptest::bool::weighted(0.4), proptest::bool::weighted(0.15), proptest::bool::weighted(0.2)).prop_map(|(target, prf, deny, removed_during_prompt)| SOp::Assert { target, prf, deny, removed_during_prompt }),
+        4 => (any::<u8>(), proptest::bool::weighted(0.4), proptest::bool::weighted(0.15), proptest::bool::weighted(0.2), proptest::option::weighted(0.2, 1u8..5)).prop_map(|(target, prf, deny, removed_during_prompt, adv)| SOp::Assert { target, prf, deny, removed_during_prompt, advanced_during_prompt: adv.unwrap_or(0) }),
     ];
     (0u8..3, any::<bool>(), prop_oneof![Just(HmacCfg::None), Just(HmacCfg::UvOnly), Just(HmacCfg::WithoutUvMc)], proptest::collection::vec(op, 1..12)).prop_map(|(store, counter_cfg, hmac, ops)| Shipped { store, counter_cfg, hmac, ops })
 }
